@@ -167,9 +167,15 @@ func runBatch(t *testing.T, rc *RunCtx, prop string) {
 		o := &Op{Kind: kind, Client: "client1"}
 		switch kind {
 		case "atts":
+			shared := ch.Pick(2, 0) == 1 // the whole committee attests at one (slot, committee index), roots differ
+			sl, ci := ch.U64(), ch.U64()
 			for _, k := range keys {
 				uniq++
-				o.Entries = append(o.Entries, attFor(rc, k, model.W[k], uniq))
+				e := attFor(rc, k, model.W[k], uniq)
+				if shared {
+					e.Slot, e.CIdx = sl, ci
+				}
+				o.Entries = append(o.Entries, e)
 			}
 		case "multi":
 			for _, k := range keys {
